@@ -393,6 +393,25 @@ func c10Window(x *c10env, jr *rand.Rand, a, b int, ji int) {
 			s, _ := acc.Sign(x.foreign.Key.SK)
 			u.SignedAccumulator = cloneSAcc(s)
 		}},
+		// the same three after the process has successfully verified the very same signed bytes under the key they were made
+		// with (one verifier serving several issuers): what verified for one key has not thereby verified for another
+		op{"sacc", win + " accumulator of foreign issuer, verified before under its own key", func(u *revocation.Update) {
+			warm := cloneSAcc(x.foreign.SAccs[b])
+			_, _ = warm.UnmarshalVerify(x.foreign.Key.PK)
+			u.SignedAccumulator = cloneSAcc(x.foreign.SAccs[b])
+		}},
+		op{"sacc", win + " whole update of foreign issuer, verified before under its own key", func(u *revocation.Update) {
+			warm := asReceived(x.foreign.Update(maxInt(a, 0), b))
+			_, _ = warm.Verify(x.foreign.Key.PK)
+			*u = *asReceived(x.foreign.Update(maxInt(a, 0), b))
+		}},
+		op{"sacc", win + " self-signed by foreign key, our content, verified before under that key", func(u *revocation.Update) {
+			acc := *x.rev.Accs[b]
+			s, _ := acc.Sign(x.foreign.Key.SK)
+			warm := cloneSAcc(s)
+			_, _ = warm.UnmarshalVerify(x.foreign.Key.PK)
+			u.SignedAccumulator = cloneSAcc(s)
+		}},
 	)
 	if b >= 1 {
 		ops = append(ops, op{"sacc", win + " older validly signed accumulator", func(u *revocation.Update) { u.SignedAccumulator = cloneSAcc(x.rev.SAccs[b-1]) }})
